@@ -594,6 +594,87 @@ func pScenarios() []pScenario {
 		}
 	})
 
+	// OnceGuard against its sequential specification (Take: true exactly for the first call;
+	// Taken: true iff some Take has returned true - or is bound to, once it has begun): a
+	// Taken() that starts after a successful Take has returned must report true, whatever
+	// other (losing) Takes are under way; a Taken() that reports true implies a Take begun.
+	for _, losers := range []int{1, 2} {
+		losers := losers
+		add(fmt.Sprintf("onceguard/linearizable/losers=%d", losers), func(r *vrt.Run) {
+			var og OnceGuard
+			if og.Taken() {
+				r.Failf("Taken() on a fresh guard")
+			}
+			if !og.Take() {
+				r.Failf("first Take() returned false")
+			}
+			// the winner has returned: from here on every observer must see the guard taken
+			var wg sync.WaitGroup
+			extra := 0
+			for i := 0; i < losers; i++ {
+				wg.Add(1)
+				go func() {
+					defer wg.Done()
+					if og.Take() {
+						vrt.Obs()
+						extra++
+					}
+				}()
+			}
+			wg.Add(1)
+			go func() {
+				defer wg.Done()
+				for i := 0; i < 2; i++ {
+					if !og.Taken() {
+						r.Failf("Taken() reported false after a Take had returned true (while %d later Take calls were under way)", losers)
+					}
+				}
+			}()
+			wg.Wait()
+			if extra != 0 {
+				r.Failf("%d later Take calls returned true", extra)
+			}
+			if !og.Taken() {
+				r.Failf("Taken() false at the end")
+			}
+		})
+	}
+	// all Takes concurrent: exactly one wins; an observer that sees Taken()==true keeps seeing it
+	add("onceguard/concurrent-takes", func(r *vrt.Run) {
+		var og OnceGuard
+		var wg sync.WaitGroup
+		wins := 0
+		for i := 0; i < 3; i++ {
+			wg.Add(1)
+			go func() {
+				defer wg.Done()
+				if og.Take() {
+					vrt.Obs()
+					wins++
+					if !og.Taken() {
+						r.Failf("the winner of Take sees Taken()==false")
+					}
+				}
+			}()
+		}
+		wg.Add(1)
+		go func() {
+			defer wg.Done()
+			seen := false
+			for i := 0; i < 3; i++ {
+				now := og.Taken()
+				if seen && !now {
+					r.Failf("Taken() went from true back to false")
+				}
+				seen = seen || now
+			}
+		}()
+		wg.Wait()
+		if wins != 1 || !og.Taken() {
+			r.Failf("%d of 3 concurrent Take calls returned true, Taken()=%v", wins, og.Taken())
+		}
+	})
+
 	add("cond/signal-vs-waitwithtimeout", func(r *vrt.Run) {
 		c := NewCond()
 		var wg sync.WaitGroup
